@@ -82,6 +82,9 @@ macro_rules! bn_prim {
 }
 bn_prim!(u8,false; u16,false; u32,false; u64,false; u128,false; i8,true; i16,true; i32,true; i64,true; i128,true);
 
+pub fn wsigned<T: Bn>(_: &T) -> bool {
+    T::S
+}
 pub fn wof<T: Bn>(_: &T) -> u32 {
     T::W
 }
